@@ -4,3 +4,5 @@ import GoProbeModel.Props.C13
 import GoProbeModel.Props.C22
 import GoProbeModel.Props.C01
 import GoProbeModel.Props.C16
+import GoProbeModel.Props.C14
+import GoProbeModel.Props.C23
